@@ -692,6 +692,11 @@ class C06(RunSpec):
             # local searches sprouted from mid-level demes that have just finished (local-method generator), one problem object per level
             p.update({"n_levels": 3, "leaf": "local", "shared": False, "sprout": "custom", "gscs": ["melimit"], "lscs": ["melimit"],
                       "inner": _cycle(["cma", "sea", "de"], idx // 10), "stacks": False, "nbclocal": True, "hibernation": False})
+        if idx % 10 == 5:
+            # CMA-ES children whose per-coordinate widths are estimated from the parent's population (set_stds), under a parent that only
+            # selects (p_mutation = 0): its population collapses to copies of a few points, the estimate in some coordinate is zero
+            p.update({"n_levels": 2, "root": _cycle(["sea", "ga", "sea_cx"], idx // 10), "leaf": "cma_stds", "hibernation": False, "level_limit": 2, "gscs": ["melimit"],
+                      "sprout": "simple", "free_lscs": True, "fams": ["rastrigin", "sphere"], "boxes": ["sym", "asym", "mixed"], "stacks": False, "dim": (2, 3)})
         if idx % 10 == 9:
             # adaptive mutation (its width grows with the metaepochs since the deme last sprouted) on a deme that sleeps for a long time and
             # is then woken by a sprout: it has to advance like any other awake deme
@@ -731,6 +736,14 @@ class C06(RunSpec):
             d["levels"][0]["lsc"] = {"k": "dontstop"}
             d["levels"][1]["lsc"] = {"k": "melimit", "n": rng.randint(1, 3)}
             d["gsc"] = {"k": "melimit", "n": 9}
+        if idx % 10 == 5 and len(d["levels"]) == 2 and d["levels"][1]["engine"] == "cma_stds" and not d.get("reuse") and not d.get("soak"):
+            rmin = min(b[1] - b[0] for b in d["box"]["bounds"])
+            d["levels"][0].update({"pop": 8, "gens": 2, "p_mutation": 0.0, "k_elites": 1, "lsc": {"k": "dontstop"}})
+            d["levels"][0].pop("election_group_size", None)
+            d["levels"][1]["lsc"] = {"k": "melimit", "n": 1 + (idx // 10) % 2}
+            d["levels"][1]["gens"] = 2
+            d["sprout"]["far"] = rmin * 1e-6
+            d["gsc"] = {"k": "melimit", "n": 22}
         if idx % 10 == 9 and len(d["levels"]) == 2 and d["levels"][0]["engine"] == "sea_adapt" and not d.get("reuse") and not d.get("soak"):
             rmin = min(b[1] - b[0] for b in d["box"]["bounds"])
             d["levels"][0].update({"mutation_std": rmin * 0.05, "mutation_std_step": rmin * 0.01, "lsc": {"k": "dontstop"}})
@@ -765,6 +778,7 @@ class C06(RunSpec):
             ("C06.cause.gsc", 1, "deactivation by GSC"),
             ("C06.cause.engine", 1, "engine self-termination"),
             ("C06.deactivation.CMADeme.engine", 1, "CMA-ES internal stop"),
+            ("C06.cma_deme_with_estimated_widths_ran_after_being_sprouted_from_a_collapsed_parent_population", 3, "CMA-ES deme (set_stds) that ran a metaepoch after being sprouted from a parent population with zero spread in some coordinate"),
             ("C06.adaptive_mutation_deme_ran_after_sleeping_longer_than_std_over_step", 3, "a deme with adaptive mutation ran again after sleeping more metaepochs than mutation_std / mutation_std_step"),
             ("C06.stopped_parent_rechecked_while_its_one_individual_child_on_the_same_problem_object_ran", 5, "stopped parent re-checked while a one-individual child sharing its problem object ran"),
             ("C06.stopped_deme_observed_3_later_metaepochs", 1, "stopped deme observed over >=3 later metaepochs"),
